@@ -699,7 +699,7 @@ func main() {
 		"the same read-API results and query indexes, and the same results and final state for h[k:] as the server that took the snapshot"
 	u := newUniverse()
 
-	nHist := run.Scale(140, 210)
+	nHist := run.Scale(140, 180)
 	maxLen := run.Scale(28, 40)
 	witnesses := map[string]*witness{}
 	cutsDone := 0
